@@ -398,16 +398,23 @@ func (c *StructCode) lastFieldCode(field *StructFieldCode, firstField *Opcode) *
 }
 
 func (c *StructCode) lastAnonymousFieldCode(firstField *Opcode) *Opcode {
-	// firstField is special StructHead operation for anonymous structure.
-	// So, StructHead's next operation is truly struct head operation.
-	for firstField.Op == OpStructHead || firstField.Op == OpStructField {
-		firstField = firstField.Next
+	return lastFieldOfAnonymous(firstField)
+}
+
+// lastFieldOfAnonymous returns the last field operation reached from code.
+// A StructHead or StructField operation without a value is the wrapper of an embedded struct:
+// its next operation is the first field of that struct, also when the embedded struct
+// is the last field of another embedded struct.
+func lastFieldOfAnonymous(code *Opcode) *Opcode {
+	for {
+		for code.Op == OpStructHead || code.Op == OpStructField {
+			code = code.Next
+		}
+		if code.NextField == nil {
+			return code
+		}
+		code = code.NextField
 	}
-	lastField := firstField
-	for lastField.NextField != nil {
-		lastField = lastField.NextField
-	}
-	return lastField
 }
 
 func (c *StructCode) ToOpcode(ctx *compileContext) Opcodes {
@@ -720,14 +727,7 @@ func (c *StructFieldCode) addStructEndCode(ctx *compileContext, codes Opcodes) O
 		Indent:     ctx.indent,
 	}
 	codes.Last().Next = end
-	code := codes.First()
-	for code.Op == OpStructField || code.Op == OpStructHead {
-		code = code.Next
-	}
-	for code.NextField != nil {
-		code = code.NextField
-	}
-	code.NextField = end
+	lastFieldOfAnonymous(codes.First()).NextField = end
 
 	codes = codes.Add(end)
 	ctx.incOpcodeIndex()
